@@ -112,6 +112,10 @@ class Path:
         if not is_light(cond):
             # hard facts (quantifiers, rounding, non-linear terms) are kept out of the feasibility solver:
             # it then over-approximates feasibility, which only costs pruning, never soundness
+            if z3.is_and(cond):
+                light = [c for c in cond.children() if is_light(c)]
+                if light:
+                    self.solver.add(*light)
             return
         self.solver.add(cond)
         if check and self.engine.prune:
@@ -135,7 +139,22 @@ class Path:
         return ".".join(str(c) for c, _ in self.taken)
 
 
+_LIGHT_CACHE = {}
+
+
 def is_light(f, budget=4000):
+    k = f.get_id()
+    hit = _LIGHT_CACHE.get(k)
+    if hit is not None and hit[0].eq(f):
+        return hit[1]
+    r = _is_light(f, budget)
+    if len(_LIGHT_CACHE) > 200000:
+        _LIGHT_CACHE.clear()
+    _LIGHT_CACHE[k] = (f, r)
+    return r
+
+
+def _is_light(f, budget=4000):
     todo = [f]
     seen = set()
     n = 0
@@ -236,9 +255,31 @@ class Engine:
             arrs.append(heap[k])
         return arrs
 
+    bound_depth = 0
+
+    def purify(self, terms):
+        """real-valued heap reads are named by fresh real constants (v == select(..)): z3 / cvc5 do not decide
+        integrality (to_int) goals over array-select terms in practice, over constants they do"""
+        p = self.path
+        if p is None or self.bound_depth > 0:
+            return terms
+        reg = p.ghost.setdefault("pure_reads", {})
+        out = []
+        for t in terms:
+            if z3.is_real(t) and not z3.is_const(t) and not z3.is_rational_value(t) and not has_bvar(t):
+                hit = reg.get(t.get_id())
+                if hit is None or not hit[0].eq(t):
+                    hit = (t, z3.Real(fresh_name("rd")))
+                    reg[t.get_id()] = hit
+                    p.assume(hit[1] == t, check=False)
+                out.append(hit[1])
+            else:
+                out.append(t)
+        return out
+
     def read_field(self, ref, owner, field, sort, heap=None, assume_wf=True):
         arrs = self.heap_arrays((owner, field), sort, heap)
-        terms = [z3.Select(a, zr(ref)) for a in arrs]
+        terms = self.purify([z3.Select(a, zr(ref)) for a in arrs])
         v = unflatten(sort, terms)
         if assume_wf and heap is None:
             self.wf_assume(v)
@@ -293,7 +334,7 @@ class Engine:
         return out
 
     def list_get(self, lref, elem, idx, heap=None):
-        comps = [z3.Select(a, zr(idx)) for a in self.list_items(lref, elem, heap)]
+        comps = self.purify([z3.Select(a, zr(idx)) for a in self.list_items(lref, elem, heap)])
         v = unflatten(elem, comps)
         if heap is None:
             self.wf_assume(v)
@@ -712,7 +753,9 @@ class Engine:
             if fi is not None:
                 owner, fsort = fi
                 return self.read_field(base.t, owner, attr, fsort)
-            mem = self.repo.lookup_member(s.cls, attr)
+            if self.spec.is_struct(s.cls) or self.spec.is_record(s.cls):
+                return bm.value_getattr(self, base, attr, line)
+            mem = self.repo.lookup_member(self.spec.dispatch.get(s.cls, s.cls), attr)
             if mem is None:
                 vm = self.spec.virtual_member(s.cls, attr)
                 if vm is not None:
@@ -1092,7 +1135,10 @@ class Engine:
                 a = BUILTIN_EXC[a]
             else:
                 ci = self.repo.classes.get(a)
-                a = ci.bases[0] if ci and ci.bases else ("Exception" if a != "Exception" else None)
+                if ci is not None:
+                    a = ci.bases[0] if ci.bases else None
+                else:
+                    a = "Exception" if (a.endswith("Error") or a.endswith("Exception")) and a != "Exception" else None
         return False
 
     def exc_matches(self, exc, tnode, fr):
